@@ -300,7 +300,8 @@ CLAIMS = {
              "back through the accessor, VTK export parsed by a recogniser of Neuroglancer's subset grammar, "
              "fragment-link files for labels up to 2^64-1.",
         note="Trusted: Lean kernel; standard axioms (Mathlib determinant/order lemmas); hand-written byte model "
-             "(tie = sampling + exhaustive truncation); VTK grammar and links are harness-level checks; "
+             "(tie = sampling + exhaustive truncation); json.dumps/csv parsing of the link tool are externals "
+             "(fragment names are opaque tokens in the model); "
              "float formatting '%.9g' observed.",
         technique="Lean 4 proof (byte layout round trip, totality, determinant identity) + differential "
                   "correspondence and grammar recogniser",
@@ -406,7 +407,12 @@ ADDENDA = {
            "that every triangle keeps its orientation from every reference point under every non-singular transform "
            "(affine_keeps_outward_orientation), tied to the real function; the VTK writer as a token-level model whose "
            "output is accepted by a Lean recogniser of the subset grammar Neuroglancer parses, for every mesh and attribute "
-           "list (vtk_export_is_accepted), tied byte for byte to the real writer's text.",
+           "list (vtk_export_is_accepted), tied byte for byte to the real writer's text; "
+           "link_mesh_fragments as a run over the CSV rows with exclusive file creation (Mesh.links): for pairwise "
+           "distinct labels over a directory holding none of their files every row's file lists exactly that row's "
+           "fragments and nothing else changes (links_list_exactly_the_given_fragments, file name injective in the "
+           "label), and a label met again stops the run without overwriting (links_never_overwrite); tied to the real "
+           "tool by a second run over the same directory with repeated, duplicated and zero-padded labels (mesh-links).",
     "C18": " Also: the sharded writer's disk-backed buffers under failures (Buffers model): after ANY history of appends "
            "failing at open or after any number of bytes the buffer holds exactly the successful payloads and reports that "
            "length; a flush whose n-th deferred append fails loses no buffered chunk; kernel-checked counterexamples for the "
